@@ -201,6 +201,11 @@ func genAge(r *rand.Rand, prop string, l Layout, id int, single bool) int64 {
 		if tgt < 0 {
 			tgt = r.IntN(n)
 		}
+		if prop == "C06" && !single && chance(r, 0.04) {
+			// a slightly future timestamp in a batch: the slot then holds a
+			// newer lap than the one a fetch maps onto it
+			return -between(r, 1, 2*l.Archs[tgt].S)
+		}
 		return between(r, 0, l.Archs[tgt].R()-1)
 	}
 	// C01, C02: in range of the named archive; a share older than the named
